@@ -9,6 +9,7 @@
 //!   !park <name> / !release <name>
 //!   !bg <command>            run the command on a background task (answer later via !join)
 //!   !join                    await the background command and return its output
+//!   !bgcdone                 whether the background compaction round (see !bgcompact) has finished
 //!   !wait_parked <name> <ms> wait until some task is parked at <name>
 //!   !trace                   take the step-point trace
 //!   !hits <name>
@@ -180,6 +181,7 @@ pub fn run_life() {
                             Ok(Err(_)) => json!({"panic": "compact"}), Err(_) => json!({"error": "TIMEOUT"}) },
                         None => json!({"error": "no bg compaction"}),
                     },
+                    "bgcdone" => json!({"done": bgc.as_ref().map(|h| h.is_finished()).unwrap_or(true)}),
                     "failwrite" => { FAIL_NEXT.store(t.get(1).and_then(|s| s.parse().ok()).unwrap_or(0), std::sync::atomic::Ordering::SeqCst); json!({"ok": true}) }
                     "user" => { user = if t.get(1).copied() == Some("-") || t.len() < 2 { None } else { Some(t[1].to_string()) }; json!({"ok": true}) }
                     "auth" => { auth = t.get(1).copied() == Some("1"); json!({"ok": true}) }
